@@ -443,7 +443,55 @@ def buffer0d_fails(case):
     return None
 
 
+def deepcopy_midrecord_fails(case):
+    """copy.deepcopy of a FINISHED graph A in the middle of the recording of another graph B (and while no graph is recording):
+    B keeps recording into B -- every operation of its program is in B, after its operands, and B replays as the direct run;
+    nothing is added to A; with recording off nothing is recorded afterwards either"""
+    import copy
+    a0, b0 = np.array(case['a']), np.array(case['b'])
+    cgA = algopy.CGraph()
+    fa = algopy.Function(a0.copy())
+    fya = algopy.sum(fa * fa)
+    cgA.trace_off()
+    cgA.independentFunctionList = [fa]
+    cgA.dependentFunctionList = [fya]
+    nA = len(cgA.functionList)
+    prog = lambda x: algopy.sum(algopy.sin(x) * x) + x[0] * x[1]
+    cgB = algopy.CGraph()
+    fb = algopy.Function(b0.copy())
+    u = algopy.sin(fb) * fb
+    snap = copy.deepcopy(cgA)                       # <- in the middle of B's program
+    fyb = algopy.sum(u) + fb[0] * fb[1]
+    cgB.trace_off()
+    cgB.independentFunctionList = [fb]
+    cgB.dependentFunctionList = [fyb]
+    if len(cgA.functionList) != nA:
+        return 'deepcopy-midrecord: %d operation(s) of graph B were recorded into the finished graph A after copy.deepcopy(A)' % (len(cgA.functionList) - nA)
+    names = [f.func.__name__ if hasattr(f.func, '__name__') else str(f.func) for f in cgB.functionList]
+    if len(cgB.functionList) != 8:
+        return 'deepcopy-midrecord-structure: graph B holds %d nodes after copy.deepcopy(A) in the middle of its recording, its program has 8 (%s)' % (len(cgB.functionList), names)
+    for pt in case['pts']:
+        pt = np.array(pt)
+        try:
+            got = float(np.asarray(cgB.function([pt.copy()])[0]))
+            gA = float(np.asarray(snap.function([pt.copy()])[0]))
+        except Exception as ex:
+            return 'deepcopy-midrecord-exception: %s' % (type(ex).__name__ + ':' + str(ex)[:60])
+        if not np.isclose(got, float(prog(pt)), rtol=1e-12, atol=1e-13):
+            return 'deepcopy-midrecord-replay: graph B replays %r, the direct run gives %r (copy.deepcopy of another graph in the middle of its recording)' % (got, float(prog(pt)))
+        if not np.isclose(gA, float(np.sum(pt * pt)), rtol=1e-12, atol=1e-13):
+            return 'deepcopy-midrecord-copy: the copy of graph A replays %r, its program gives %r' % (gA, float(np.sum(pt * pt)))
+    n_before = len(cgB.functionList)
+    copy.deepcopy(cgB)                              # recording is off
+    w = fb * 2.0 + fyb
+    if len(cgB.functionList) != n_before or len(cgA.functionList) != nA:
+        return 'deepcopy-recording-off: an operation executed after copy.deepcopy(graph) with recording off was recorded'
+    return None
+
+
 def replay_case(ctx, case):
+    if case.get('op') == 'deepcopy-midrecord':
+        return deepcopy_midrecord_fails(case)
     if case.get('op') == 'buffer0d':
         return buffer0d_fails(case)
     if case.get('op') == 'tie-program':
@@ -529,6 +577,13 @@ def run(ctx):
             f = workarray_replay_fails(case)
             if f:
                 ctx.report(case, 'failure', f)
+    for _i in range(2):
+        case = {'op': 'deepcopy-midrecord', 'a': rand_coeffs(rng, (3,), -2, 2), 'b': rand_coeffs(rng, (3,), -2, 2), 'pts': [rand_coeffs(rng, (3,), -2, 2) for _ in range(2)]}
+        ctx.evaluations += 1
+        ctx.count('deepcopy-of-a-graph-while-recording')
+        f = deepcopy_midrecord_fails(case)
+        if f:
+            ctx.report(case, 'failure', f)
     for alloc in ('zeros', 'ones'):
         for rec_kind in ('ndarray', 'utpm'):
             case = {'op': 'buffer0d', 'alloc': alloc, 'rec_kind': rec_kind, 'rec': rand_coeffs(rng, (3, 2, 3), -2, 2),
